@@ -17,6 +17,7 @@ mod wire;
 mod c15;
 mod c16;
 mod c17;
+mod c19;
 mod c20;
 
 use std::path::PathBuf;
@@ -94,6 +95,7 @@ fn main() {
         "C15" => c15::run(&ctx, evidence.as_ref()),
         "C16" => c16::run(&ctx, evidence.as_ref()),
         "C17" => c17::run(&ctx, evidence.as_ref()),
+        "C19" => c19::run(&ctx, evidence.as_ref()),
         "C20" => c20::run(&ctx, evidence.as_ref()),
         _ => {
             eprintln!("unknown property {prop}");
